@@ -600,6 +600,13 @@ pub fn run(tier: Tier, replay: Option<String>) -> i32 {
             bcfg.push((65, page, 1));
             bcfg.push((64, page, page - 1));
         }
+        // many words: 4096 pages +- 1 (a multiple of 64 words), and a few hundred large pages
+        if tier.thorough() {
+            bcfg.push((4095, 1, 0));
+            bcfg.push((4096, 1, 0));
+            bcfg.push((4097, 1, 0));
+        }
+        bcfg.push((260, 4096, 5));
         bcfg.push((1, 4096, 4000)); // page size larger than the byte size
         bcfg.push((1, 7, 6));
         for b in bcfg {
